@@ -5,14 +5,16 @@ def register(reg):
     register_hasher(reg)
     register_hasher_next(reg)
     register_hasher_init(reg)
+    register_filehasher(reg)
     C = reg.contract
 
     C("torrentfile.hasher.merkle_root",
       props=["C02", "C10"],
       params={"blocks": "list[digest]"},
-      requires=["len(blocks) >= 1", "is_pow2(len(blocks))"],
-      returns="bytes",
-      ensures=[("C02", "layerwise_merkle_root", "result == mroot(old(blocks))")],
+      requires=["len(blocks) == 0 or is_pow2(len(blocks))"],
+      returns="any",
+      ensures=[("C02", "layerwise_merkle_root", "implies(len(old(blocks)) >= 1, result == mroot(old(blocks)))"),
+               ("C02", "empty_list_is_returned_unchanged", "implies(len(old(blocks)) == 0, is_list(result) and len(result) == 0)")],
       loops={0: {"invariant": [("same_root", "mroot(blocks) == mroot(old(blocks))"),
                                ("pow2_len", "len(blocks) >= 1 and is_pow2(len(blocks))")],
                  "decreases": "len(blocks)"}},
@@ -144,3 +146,44 @@ def register_hasher_init(reg):
       ],
       creates={"piece_length": "int", "paths": "list[str]", "align": "bool", "total": "int", "index": "int", "current": "file",
                "progress": "int"})
+
+
+FH = {"cls": "torrentfile.hasher.FileHasher",
+      "fields": {"path": "str", "pad": "bool", "piece_length": "int", "pieces": "list[bytes]", "layer_hashes": "list[digest]",
+                 "piece_layer": "any", "root": "any", "padding_piece": "any", "padding_file": "any", "amount": "int", "end": "bool",
+                 "progress": "int", "current": "file", "hybrid": "bool"}}
+
+
+def register_filehasher(reg):
+    C = reg.contract
+    C("torrentfile.hasher.FileHasher._pad_remaining",
+      props=["C02", "C10"],
+      params={"self": FH, "block_count": "int"},
+      requires=["1 <= block_count < self.amount"],
+      returns="list[digest]",
+      ensures=[("C02", "padding_is_zero_hashes", "result == zero_digests(len(result))"),
+               ("C02", "one_piece_file_is_padded_to_the_next_power_of_two",
+                "implies(len(self.layer_hashes) == 0, is_pow2(block_count + len(result)) and block_count + len(result) < 2 * block_count)"),
+               ("C02", "later_short_piece_is_padded_to_a_full_piece",
+                "implies(len(self.layer_hashes) > 0, block_count + len(result) == self.amount)")],
+      notes="BEP 52: a short last piece is padded with zero hashes up to a full piece; a file of at most one piece is padded only "
+            "up to the next power of two of its block count")
+
+    C("torrentfile.hasher.FileHasher._calculate_root",
+      props=["C02", "C10"],
+      params={"self": FH},
+      requires=["self.amount >= 1 and is_pow2(self.amount)", "file_open(self.current)"],
+      modifies=["self.piece_layer", "self.layer_hashes", "self.root", "self.current"],
+      ensures=[
+          ("C02", "piece_layer_is_the_concatenation_of_the_layer_hashes_without_padding",
+           "self.piece_layer == bytes_join(old(self.layer_hashes))"),
+          ("C02", "root_over_the_piece_hashes_padded_with_zero_piece_roots",
+           "implies(len(old(self.layer_hashes)) >= 1, self.root == mroot(self.layer_hashes) and "
+           "self.layer_hashes == cat(old(self.layer_hashes), repeat_digest(mroot(zero_digests(self.amount)), "
+           "len(self.layer_hashes) - len(old(self.layer_hashes)))))"),
+          ("C02", "padded_to_the_next_power_of_two",
+           "implies(len(old(self.layer_hashes)) >= 1, is_pow2(len(self.layer_hashes)) and "
+           "len(old(self.layer_hashes)) <= len(self.layer_hashes) and "
+           "(len(self.layer_hashes) < 2 * len(old(self.layer_hashes)) or len(old(self.layer_hashes)) == 1 and len(self.layer_hashes) == 1))"),
+      ],
+      notes="with L2 (merkle decomposition, Lean) this is the BEP 52 root over all 16 KiB leaves padded with zero hashes")
